@@ -153,6 +153,21 @@ def dither(run, tier):
                     if not ok:
                         run.violation({"kind": "dither_is_not_x_plus_coeff_times_seeded_noise", "dtype": str(np.dtype(dt)), "n": n,
                                        "coeff": coeff, "in_place": ip, "signal": "zeros" if not x.any() else "ramp"})
+    # `in_place` is a truth value: any falsy object leaves the input untouched, any truthy one gives the same values
+    for flag in (False, np.False_, 0, None, True, np.True_, 1):
+        for op in (pre.Preemphasize(0.9), pre.Dither(0.5)):
+            x = (np.arange(40) * 3 - 7).astype(np.float64)
+            arg = x.copy()
+            np.random.seed(3)
+            got = op.apply(arg, in_place=flag)
+            np.random.seed(3)
+            want = op.apply(x.copy())
+            run.evaluations += 1
+            if not np.array_equal(got, want):
+                run.violation({"kind": "in_place_flag_changes_values", "op": type(op).__name__, "in_place": repr(flag)})
+            if not flag and not np.array_equal(arg, x):
+                run.violation({"kind": ("preemph" if isinstance(op, pre.Preemphasize) else "dither") + "_modified_input", "in_place": repr(flag),
+                               "dtype": "float64", "n": 40})
     # `coeff` is a public attribute: what counts is its value when apply() is called, not when the object was built
     for (c1, c2) in ((1.0, 0.0), (0.0, 2.0), (1.0, 3.0)):
         x = (np.arange(50) * 3 - 7).astype(np.float64)
